@@ -308,7 +308,7 @@ func (h *harness) build() {
 				tz = zones.Load(d.TZ)
 			}
 			if d.Raw {
-				if tz == nil {
+				if tz == nil && !d.NilTZ {
 					tz = time.UTC
 				}
 				devs = append(devs, uhppote.Device{Name: d.Name, DeviceID: d.ID, Address: addr, Doors: doors, TimeZone: tz, Protocol: d.Protocol})
@@ -638,7 +638,16 @@ func (h *harness) listen(ti, si int, st *Step) {
 	l := &lst{h: h, st: st, id: [2]int{ti, si}}
 	q := h.qs[[2]int{ti, si}]
 	h.point("listen-begin", si, nil)
-	if st.StopAfter > 0 {
+	if st.StopPending {
+		// the application was told to stop before it got round to listening: the signal is waiting in its channel
+		h.sim.Point("stop", -1, nil)
+		if vnet.SignalDeliverable(q) {
+			select {
+			case q <- os.Interrupt:
+			default:
+			}
+		}
+	} else if st.StopAfter > 0 {
 		// a helper goroutine of the harness delivers the stop signal
 		h.sim.Go(-1-ti, fmt.Sprintf("task%02d/stopper%d", ti, si), 0, func() {
 			h.sim.SleepSim(st.StopAfter)
